@@ -63,3 +63,8 @@ chk("C17","model_checking",
  "Activities over every addressing sequence (<= 2, thorough 3 entries from owned Collection / OrderedCollection / foreign collection / owned non-collection / actor) x every reply chain up to depth 3 (5) with embedded / dereferenced / missing / unknown-type links and an owned or foreign end x depth limits x 3 filters are delivered along 5 histories (1..3 deliveries to one or two local inboxes) as sequences of real requests on one application state; oracle: forwarded exactly once, on first sight, iff an owned collection is addressed and an owned value lies within the limit; filter offered exactly the owned addressed collections and obeyed; payload equals the received body; recorded as seen exactly once.",
  "Trusted: chain-reach computation of the oracle; locks counted not blocking; non-JSON documents left to C11.",
  "bounded-exhaustive enumeration of activities x delivery histories (state exploration over request sequences) against a reference predicate","DESIGN.md 3 C17")
+
+chk("C19","model_checking",
+ "(1) Dereference/Deliver x recording signer and real httpsig RSA-SHA256/RSA-SHA512/HMAC-SHA256 signers x 4 header lists x 3 agents x 5 URLs x 4 payloads: headers at signing time, key, key id, body bytes, nothing altered until Do, signatures verified with httpsig.NewVerifier on what the client received; (2) every status 100..599 and transport / signer errors; (3) BatchDeliver under a cooperative scheduler, with pub/transport.go rebuilt through a build-time overlay that routes its mutexes, WaitGroup, go statements and channel operations through a shim: recipients 0..3 (with a duplicate) x every per-recipient outcome combination, and concurrent batches + Dereference on one transport value; all interleavings with <= 2 (thorough 3) preemptions; oracle: no deadlock, one attempt per entry, error iff a failure and naming each, signer calls never overlap; (4) supplementary free-running -race pass with real stateful signers and 64-recipient overlapping batches.",
+ "Trusted: the overlay rewriter (go/ast; falls back with exhaustive:false if the file uses an unsupported construct), the shim's model of sync.Mutex / WaitGroup / buffered channels; interleaving granularity = synchronisation operations, SignRequest and Do.",
+ "stateless model checking of the implementation under a controlled scheduler (preemption-bounded schedule enumeration) + exhaustive request product","DESIGN.md 3 C19")
